@@ -118,8 +118,12 @@ class AnyIOBackend(AsyncNetworkBackend):
                     local_host=local_address,
                 )
                 # By default TCP sockets opened in `asyncio` include TCP_NODELAY.
-                for option in socket_options:
-                    stream._raw_socket.setsockopt(*option)  # type: ignore[attr-defined] # pragma: no cover
+                try:
+                    for option in socket_options:
+                        stream._raw_socket.setsockopt(*option)  # type: ignore[attr-defined] # pragma: no cover
+                except Exception as exc:  # pragma: nocover
+                    await stream.aclose()
+                    raise exc
         return AnyIOStream(stream)
 
     async def connect_unix_socket(
@@ -138,8 +142,12 @@ class AnyIOBackend(AsyncNetworkBackend):
         with map_exceptions(exc_map):
             with anyio.fail_after(timeout):
                 stream: anyio.abc.ByteStream = await anyio.connect_unix(path)
-                for option in socket_options:
-                    stream._raw_socket.setsockopt(*option)  # type: ignore[attr-defined] # pragma: no cover
+                try:
+                    for option in socket_options:
+                        stream._raw_socket.setsockopt(*option)  # type: ignore[attr-defined] # pragma: no cover
+                except Exception as exc:
+                    await stream.aclose()
+                    raise exc
         return AnyIOStream(stream)
 
     async def sleep(self, seconds: float) -> None:
